@@ -250,7 +250,17 @@ struct ProjFn
     static std::vector<T> const& coords(hep::multi_channel_point<T> const& p) { return p.coordinates(); }
     static std::vector<T> const& coords(hep::mc_point<T> const& p) { return p.point(); }
 
-    T f(std::vector<T> const& x) const { return (x[0] < T(0.2)) ? T(0) : (T(1) + x[0] - T(1.7) * x[dims - 1]); }
+    int family = 0;
+    T f(std::vector<T> const& x) const
+    {
+        if (family == 1)
+        {
+            // exponential fall-off: the tail bins are many orders of magnitude below the total
+            using std::exp;
+            return exp(-(std::is_same<T, float>::value ? T(20) : T(45)) * x[0]);
+        }
+        return (x[0] < T(0.2)) ? T(0) : (T(1) + x[0] - T(1.7) * x[dims - 1]);
+    }
     // projected coordinates: affine in the point so that a good part falls outside the range
     // keep the projected coordinate at least 5 % of a bin away from every edge: within a rounding error of an edge
     // either neighbour is correct, which a differential test cannot use (edges are the subject of part A)
@@ -311,6 +321,8 @@ void differential(vf::Ctx& c, std::vector<Spec<T>> const& specs, std::vector<hep
     std::uint32_t const seed = 1 + static_cast<std::uint32_t>(t.next() % 100000u);
     ProjFn<T> fn;
     fn.specs = &specs;
+    fn.family = static_cast<int>(t.pick(3) == 0);
+    if (fn.family == 1) { c.label("steep-integrand"); }
     c.desc << " | differential " << (integrator == 0 ? "PLAIN" : integrator == 1 ? "VEGAS" : "MULTI") << " N=" << N << " seed=" << seed;
     // run helpers: with distributions, and the plain variant with the same engine
     std::size_t dims = 1 + t.pick(3);
@@ -359,12 +371,15 @@ void differential(vf::Ctx& c, std::vector<Spec<T>> const& specs, std::vector<hep
             VF_CHECK(c, bins[b].non_zero_calls() <= N && bins[b].finite_calls() <= bins[b].non_zero_calls(), "C11:bin-counters", "bin counters");
             // sums: the separate run adds f*w/area, the bin adds f*w and scales by 1/area afterwards
             long double const scale_abs = std::sqrt(static_cast<long double>(sep.sum_of_squares()) * N) + std::fabs(static_cast<long double>(sep.sum()));
-            long double const tol_sum = 16 * eps * scale_abs + 1e-300L;
+            long double const tol_sum = 16 * eps * scale_abs + 4 * N * static_cast<long double>(std::numeric_limits<T>::denorm_min()) + 1e-300L;
             long double const err_sum = std::fabs(static_cast<long double>(bins[b].sum()) - static_cast<long double>(sep.sum()));
             c.note_margin(tol_sum, err_sum);
             VF_CHECK(c, err_sum <= tol_sum, "C11:bin-vs-separate-sum", "distribution " << d << " bin " << b << ": sum " << vf::show(bins[b].sum())
                 << " but integrating f*1[bin]/area with the same random numbers gives " << vf::show(sep.sum()));
-            long double const tol_sq = 16 * eps * static_cast<long double>(sep.sum_of_squares()) + 1e-300L;
+            // sums of squares in the denormal range of T (tiny values, huge bin areas) carry absolute, not relative, errors
+            long double const dmin = static_cast<long double>(std::numeric_limits<T>::denorm_min());
+            bool const denormal_sq = static_cast<long double>(sep.sum_of_squares()) < static_cast<long double>(std::numeric_limits<T>::min()) * std::ldexp(1.0L, std::numeric_limits<T>::digits);
+            long double const tol_sq = 16 * eps * static_cast<long double>(sep.sum_of_squares()) + 4 * N * dmin + 1e-300L;
             VF_CHECK(c, std::fabs(static_cast<long double>(bins[b].sum_of_squares()) - static_cast<long double>(sep.sum_of_squares())) <= tol_sq,
                 "C11:bin-vs-separate-sumsq", "distribution " << d << " bin " << b << ": sum of squares " << vf::show(bins[b].sum_of_squares())
                 << " vs " << vf::show(sep.sum_of_squares()));
@@ -374,7 +389,7 @@ void differential(vf::Ctx& c, std::vector<Spec<T>> const& specs, std::vector<hep
             // error: same formula on nearly equal sums; compare variances with the conditioning of the subtraction
             long double const a = static_cast<long double>(sep.sum_of_squares()) / N, e2 = static_cast<long double>(sep.value()) * sep.value();
             long double const tolvar = 64 * eps * (a + e2) / (N - 1.0L) + 1e-300L;
-            VF_CHECK(c, std::fabs(static_cast<long double>(bins[b].variance()) - static_cast<long double>(sep.variance())) <= tolvar, "C11:bin-vs-separate-error",
+            VF_CHECK(c, denormal_sq || std::fabs(static_cast<long double>(bins[b].variance()) - static_cast<long double>(sep.variance())) <= tolvar, "C11:bin-vs-separate-error",
                 "distribution " << d << " bin " << b << ": variance " << vf::show(bins[b].variance()) << " vs " << vf::show(sep.variance()));
             total += static_cast<long double>(bins[b].sum()) * area;
             total_abs += scale_abs * area;
